@@ -92,27 +92,29 @@ impl<'a> DeserializationContext<'a> {
 
 impl<'a> BinaryInput for DeserializationContext<'a> {
     fn read_u8(&mut self) -> Result<u8> {
-        if self.current.pos == self.current.end {
+        let index = self.current.start + self.current.pos;
+        if index >= self.current.end {
             Err(Error::InputEndedUnexpectedly)
         } else {
             self.current.pos += 1;
-            Ok(self.input[self.current.start + self.current.pos - 1])
+            Ok(self.input[index])
         }
     }
 
     fn read_bytes(&mut self, count: usize) -> Result<&[u8]> {
-        match self.current.pos.checked_add(count) {
+        let start = self.current.start + self.current.pos;
+        match start.checked_add(count) {
             Some(end) if end <= self.current.end => {
-                let start = self.current.start + self.current.pos;
                 self.current.pos += count;
-                Ok(&self.input[start..(self.current.start + self.current.pos)])
+                Ok(&self.input[start..end])
             }
             _ => Err(Error::InputEndedUnexpectedly),
         }
     }
 
     fn skip(&mut self, count: usize) -> Result<()> {
-        match self.current.pos.checked_add(count) {
+        let start = self.current.start + self.current.pos;
+        match start.checked_add(count) {
             Some(end) if end <= self.current.end => {
                 self.current.pos += count;
                 Ok(())
